@@ -297,6 +297,19 @@ def r4_dispatch(ctx):
               'public-reexport:createImporter', 'kernpy.createImporter is importer_factory.createImporter')
 
 
+def _first_ctor_arg(ctx, call, fi):
+    ci = F.constructed_class(ctx, call, fi)
+    init = ctx.prog.find_method(ci, '__init__') if ci is not None else None
+    if init is None or len(init.params) < 2:
+        return None
+    try:
+        b = F.bind_args(call, init, True)
+    except AnalysisError:
+        return None
+    v = b.get(init.params[1])
+    return src(v) if v is not None else None
+
+
 def r7_document_dispatch(ctx):
     """At document level every ordinary cell is imported by the importer of ITS OWN spine header, on every occurrence:
     the token of a cell comes from importer.import_token(cell) (or is the ErrorToken of the handler), with
@@ -306,48 +319,56 @@ def r7_document_dispatch(ctx):
     ctx.expect_count('R7', 'column loop', len(loops), 1)
     lp = loops[0]
     iv, cv = (e.id for e in lp.target.elts)
-    adds = [c for c in ast.walk(lp) if isinstance(c, ast.Call) and isinstance(c.func, ast.Attribute) and c.func.attr == 'add_node']
     add = ctx.prog.func(f'{N.DOCUMENT}.MultistageTree.add_node')
-    tokvars = {src(F.bind_args(c, add, True).get('token')) for c in adds}
-    ctx.check(len(tokvars) == 1, 'R7', run_.loc, run_.qualname, 'node-token-variable', 'one token variable feeds add_node')
-    tokvar = next(iter(tokvars)) if tokvars else None
-    sources = []
-    for n in ast.walk(lp):
-        if isinstance(n, ast.Assign) and any(F.is_name(t, tokvar) for t in n.targets):
-            sources.append(n)
-    allowed = 0
-    et = ctx.prog.cls(f'{N.TOKENS}.ErrorToken')
-    for a in sources:
-        v = a.value
-        at = f'{run_.module.relpath}:{a.lineno}'
-        if isinstance(v, ast.Call) and isinstance(v.func, ast.Attribute) and v.func.attr == 'import_token':
-            allowed += 1
-            imp_var = src(v.func.value)
-            ok_arg = len(v.args) == 1 and F.is_name(v.args[0], cv)
-            imp_assigns = [src(x.value) for x in ast.walk(lp) if isinstance(x, ast.Assign) and any(src(t) == imp_var for t in x.targets)]
-            ok_imp = imp_assigns == ['self._importers.get(parent.header_node.token.encoding)']
-            par = [src(x.value) for x in ast.walk(lp) if isinstance(x, ast.Assign) and any(F.is_name(t, 'parent') for t in x.targets)]
-            ok_par = set(par) == {f'self._prev_stage_parents[{iv}]'}
-            ctx.check(ok_arg and ok_imp and ok_par, 'R7', at, run_.qualname, 'cell-importer-is-own-header',
-                      'a cell is parsed by importers[header text of its own spine path] with the raw cell text',
-                      f'the cell is parsed by `{imp_assigns}` with `{src(v)[:60]}` (parent {par})')
-        elif isinstance(v, ast.Call) and F.constructed_class(ctx, v, run_) is not None and \
-                F.constructed_class(ctx, v, run_).name in ('ErrorToken', 'FieldCommentToken'):
-            allowed += 1
-        else:
-            ctx.violation('R7', at, run_.qualname, 'token-from-other-source',
-                          f'`{src(a)[:90]}`: the token of a cell does not come from the importer of its own spine (nor is it the error / '
-                          f'comment token of that cell): a token parsed for another cell - possibly under another spine type - is reused, '
-                          f'so the category of a cell depends on what was seen before in that column')
-    ctx.expect_count('R7', 'token sources in the column loop', allowed, 3)
+    IV, CV = iv, cv        # symbolic execution of the loop BODY: the loop variables keep their names
+    want_parent = f'self._prev_stage_parents[{IV}]'
+    want_imp = f'self._importers.get({want_parent}.header_node.token.encoding)'
+    kinds = {}
+    bad_src, bad_imp = [], []
+    for sp in symex.sym_paths(lp.body, fi=run_):
+        for e in sp.events:
+            c = e.expr if isinstance(e.expr, ast.Call) else None
+            if c is None or not (isinstance(c.func, ast.Attribute) and c.func.attr == 'add_node' and src(c.func.value) == 'self._tree'):
+                continue
+            b_ = F.bind_args(c, add, True)
+            tok, par = b_.get('token'), b_.get('parent')
+            at = f'{run_.module.relpath}:{e.node.lineno}'
+            if isinstance(tok, ast.Call) and isinstance(tok.func, ast.Attribute) and tok.func.attr == 'import_token':
+                kinds['import_token'] = at
+                ok_ = len(tok.args) == 1 and src(tok.args[0]) == CV and src(tok.func.value) == want_imp and src(par) == want_parent
+                if not ok_:
+                    bad_imp.append((at, src(tok.func.value), src(tok)[-40:], src(par)))
+            elif isinstance(tok, ast.Call) and F.constructed_class(ctx, tok, run_) is not None and \
+                    F.constructed_class(ctx, tok, run_).name in ('ErrorToken', 'FieldCommentToken') and _first_ctor_arg(ctx, tok, run_) == CV:
+                kinds[F.constructed_class(ctx, tok, run_).name] = at
+                if src(par) != want_parent:
+                    bad_imp.append((at, '-', src(tok)[:40], src(par)))
+            else:
+                bad_src.append((at, src(tok)[:90] if tok is not None else None))
+    for at, imp_, tk_, par_ in sorted(set(bad_imp))[:2]:
+        ctx.violation('R7', at, run_.qualname, 'cell-importer-is-own-header',
+                      f'the cell is parsed by `{imp_}` with `{tk_}` (parent {par_})')
+    if not bad_imp:
+        ctx.holds('R7', kinds.get('import_token', run_.loc), run_.qualname,
+                  'a cell is parsed by importers[header text of its own spine path] with the raw cell text')
+    for at, t_ in sorted(set(bad_src))[:2]:
+        ctx.violation('R7', at, run_.qualname, 'token-from-other-source',
+                      f'`{t_}`: the token of a cell does not come from the importer of its own spine (nor is it the error / '
+                      f'comment token of that cell): a token parsed for another cell - possibly under another spine type - is reused, '
+                      f'so the category of a cell depends on what was seen before in that column')
+    ctx.expect_count('R7', 'token sources in the column loop', len(kinds), 3)
     hdr = ctx.prog.func(f'{N.IMPORTER}.Importer._compute_header_token')
     cc = hdr.params[2]
-    stores = [src(n) for n in walk_local(hdr.node) if isinstance(n, ast.Assign) and src(n.targets[0]).startswith('self._importers[')]
-    created = [src(n.value) for n in walk_local(hdr.node) if isinstance(n, ast.Assign) and isinstance(n.value, ast.Call)
-               and src(n.value.func) == 'createImporter']
-    ctx.check(stores == [f'self._importers[{cc}] = importer'] and created == [f'createImporter({cc})'], 'R7', hdr.loc, hdr.qualname,
+    table = F.store_table(hdr)
+    rows = table.get(f'self._importers[{cc}]', [])
+    other = [k for k in table if k.startswith('self._importers[') and k != f'self._importers[{cc}]']
+    okh = bool(rows) and not other and all(src(v) == f'createImporter({cc})' for _, v, _ in rows)
+    # created only when the header has no importer yet (one importer per spine type)
+    okh = okh and all(F.forced(c_, f'self._importers.get({cc})', False) or F.forced(c_, f'{cc} in self._importers', False)
+                      or F.forced(c_, f'self._importers.get({cc}) is None', True) for c_, _, _ in rows)
+    ctx.check(okh, 'R7', hdr.loc, hdr.qualname,
               'importers-keyed-by-header', 'importers are created by createImporter(header text) and stored under that header text',
-              f'importer table: {stores}, created by {created}')
+              f'importer table: {[(k, [src(v) for _, v, _ in r_]) for k, r_ in table.items() if k.startswith("self._importers")]}')
 
 
 def r8_input_validation(ctx):
